@@ -21,9 +21,18 @@ open Gold Gold.Peg
 def Pos.lt (a b : Pos) : Bool := a.line < b.line || (a.line == b.line && a.col < b.col)
 
 /-- unfold every position fact to linear arithmetic over lines and columns and let `omega` decide -/
+theorem rng_leaf (t : Tok) : (Tree.leaf t).rng = t.rng := rfl
+theorem rng_node (k i : String) (r s : Range) (a : List String) (kids : List Tree) : (Tree.node k i r s a kids).rng = r := rfl
+
+theorem Pos.le_iff (a b : Pos) : a.le b = true ↔ (a.line < b.line ∨ (a.line = b.line ∧ a.col ≤ b.col)) := by
+  simp [Pos.le]
+
+theorem Pos.lt_iff (a b : Pos) : Pos.lt a b = true ↔ (a.line < b.line ∨ (a.line = b.line ∧ a.col < b.col)) := by
+  simp [Pos.lt]
+
 macro "pos_arith" : tactic =>
-  `(tactic| (simp only [Pos.le, Pos.lt, Range.ok, Range.within, Range.span, Range.zero, Bool.or_eq_true, Bool.and_eq_true,
-      decide_eq_true_eq, beq_iff_eq, Nat.max_def] at * <;> omega))
+  `(tactic| ((try simp only [Range.ok, Range.within, Range.span, Range.zero, rng_leaf, rng_node, Bool.and_eq_true] at *) <;>
+      (try simp only [Pos.le_iff, Pos.lt_iff, Nat.max_def, true_and, and_true, Nat.lt_irrefl, false_or, or_false] at *) <;> omega))
 
 theorem Pos.lt_le {a b : Pos} (h : Pos.lt a b = true) : a.le b = true := by pos_arith
 
